@@ -2,6 +2,7 @@
 package c15
 
 import (
+	"fmt"
 	"mime"
 	"net/http"
 	"net/url"
@@ -235,6 +236,12 @@ func (m *matchers) path(path string, nontrivp *bool, classesp *[]string) error {
 			}
 		}
 		r := &http.Request{Method: "GET", URL: &url.URL{Path: path}, Host: "h", Header: http.Header{"Accept": {"a/b; version=v1"}}}
+		if len(path) > 2 && (len(path)+len(c.Versions))%3 == 0 {
+			// the same path written with a percent-escape in its first segment: what the matcher is specified on is the
+			// (decoded) request path, whichever spelling the target came in
+			r.URL.RawPath = fmt.Sprintf("%s%%%02X%s", path[:1], path[1], path[2:])
+			classes = append(classes, "path-with-escaped-spelling")
+		}
 		ctx := types.NewContext()
 		ctx.Set("pre", "1")
 		var got bool
